@@ -465,6 +465,19 @@ func run(c *mon.Ctx) {
 			} else {
 				a := body(n%5, r)
 				arg = &a
+				// the argument comes from wherever packets come from: a local value, packet.New, packet.Create (the
+				// last thing created in the process), FromBytes
+				switch r.Intn(6) {
+				case 0:
+					arg = packet.Create(r.Intn(8192), packet.WithHasPayloadFlag)
+					c.Count("helper.argument_from_Create")
+				case 1:
+					arg = packet.New()
+				case 2:
+					if fb, err := packet.FromBytes(a[:]); err == nil && fb != nil {
+						arg = fb
+					}
+				}
 			}
 			before := *arg
 			var got *packet.Packet
@@ -490,6 +503,10 @@ func run(c *mon.Ctx) {
 			}
 			if got == nil || *got != want {
 				c.Fail("helper:"+name, fmt.Sprintf("call %d of a run: packet.%s did not return the argument with only the counter changed", n, name), wit{Op: name, Before: mon.Hex(before[:])})
+				return
+			}
+			if got == arg {
+				c.Fail("helper:"+name+"-returns-its-argument", fmt.Sprintf("call %d of a run: packet.%s returned its argument instead of a copy", n, name), wit{Op: name, Before: mon.Hex(before[:])})
 				return
 			}
 			res = append(res, kept{got, want})
